@@ -7,7 +7,8 @@ let parse_reply (s : string) : reply =
       r_resp = (if ty = 9 then None else
                   Some { rs_type = n_of_int ty; rs_src = n_of_int src; rs_cc = n_of_int cc;
                          rs_mc = n_of_int mc; rs_data = repeat (n_of_int fill) ln;
-                         rs_pid = n_of_int (100 + fill mod 7) });
+                         rs_hdr = (((n_of_int (100 + fill mod 7), n_of_int (2 + fill mod 3)),
+                                    n_of_int (fill mod 5)), n_of_int (fill mod 4)) });
       r_frames = n_of_int fr }
   | _ -> failwith "bad reply"
 (* ops grammar: P R E f i S(ops) F(ops) I(ops) D<reply>;   (f / i: discovery with a NULL callback) *)
@@ -67,8 +68,10 @@ let ev_s (e : tev) =
 let comp_s (c : comp) =
   Printf.sprintf "%d:%d:%d:%s" (int_of_n c.c_id) (int_of_n c.c_kind) (int_of_n c.c_reply.r_status)
     (match c.c_reply.r_resp with None -> "n"
-     | Some rs -> Printf.sprintf "%d.%d.%d.%d.%d:%s" (int_of_n rs.rs_type) (int_of_n rs.rs_src) (int_of_n rs.rs_cc)
-                   (int_of_n rs.rs_mc) (int_of_n rs.rs_pid) (rle rs.rs_data))
+     | Some rs ->
+       let (((pid, dst), tn), sub) = rs.rs_hdr in
+       Printf.sprintf "%d.%d.%d.%d.%d.%d.%d.%d:%s" (int_of_n rs.rs_type) (int_of_n rs.rs_src) (int_of_n rs.rs_cc)
+         (int_of_n rs.rs_mc) (int_of_n pid) (int_of_n dst) (int_of_n tn) (int_of_n sub) (rle rs.rs_data))
 let comps_s (l : comp list) = match l with [] -> "." | _ -> String.concat "," (List.map comp_s l)
 let trace_s (s : st) = match s.g_trace with [] -> "." | l -> String.concat "," (List.map ev_s l)
 let int_s (s : st) =
